@@ -25,6 +25,10 @@ FILLERS = [
     " # c\n  /* d */ ", "\n/* c */ # d\n",
     # a comment that touches the previous token (no white space before its opener) / both neighbours
     "/* c */ ", "/* c */",
+    # a block comment whose text starts on the line after the opener, placed on the line of the previous token
+    " /*\n  m\n*/ ",
+    # a line comment followed by a "blank" line made of CR / form feed (what counts as a blank line must not depend on who asks)
+    " # c\r\n\r\n", " # c\n\x0c\n",
 ]
 
 # comment texts whose wording is easy to damage: delimiters' own characters at either end, empty bodies, nested-looking openers,
@@ -43,6 +47,8 @@ WORDING_HOSTS = {
     "list": "[\n  1\n  @C@\n  2\n]\n",
     "let": "let\n  @C@\n  a = 1;\nin\na\n",
 }
+
+PAIR_FILLERS = ["\n", " # c\n", "\n# c\n", " /* c */ ", "\n\n"]
 
 ATOMS = ["a", "1", '"s"', "./p", "true", "null", "1.5", "x.y", "[ ]", "{ }"]
 SUBS = ["{ x = 1; }", "[ 1 2 ]", "f x", "(a)", "let y = 1; in y", "x: x", "a + b", "if c then 1 else 2", "''\n  s\n''",
@@ -301,15 +307,16 @@ def default_sep(prev: str, cur: str) -> str:
 def render(toks, slot=None, filler=None, lead="", trail="\n"):
     parts = []
     n = len(toks)
+    fills = slot if isinstance(slot, dict) else ({slot: filler} if slot is not None else {})
     for i, tok in enumerate(toks):
         w = tok[1]
         sep = tok[2] if len(tok) > 2 else " "
         if i == 0:
-            parts.append(filler if slot == 0 else lead)
+            parts.append(fills[0] if 0 in fills else lead)
         else:
-            parts.append(filler if slot == i else sep)
+            parts.append(fills[i] if i in fills else sep)
         parts.append(w)
-    parts.append(filler if slot == n else trail)
+    parts.append(fills[n] if n in fills else trail)
     text = "".join(parts)
     # string interpolation template pieces must stay glued
     return text
@@ -354,6 +361,13 @@ def base_programs(tier: str):
                     fill = ["a"] * n
                     fill[h] = atom
                     yield name, f"h{h}={atom}", tokenize_template(tpl, fill)
+    # every one-line construct once more as the value of a binding (rendered at indent 2: layout code that passes an
+    # indent on to comments / nested parts only shows there); plain atoms in the holes
+    for name, tpl in TEMPLATES.items():
+        if name.startswith("ml_") or "⏎" in tpl:
+            continue
+        n = hole_count(tpl)
+        yield name + "@binding", "atoms", tokenize_template("{ k = " + tpl + " ; }", ["a"] * n if n else [])
     for i, atom in enumerate(ATOMS + SUBS):
         yield "atom", atom, [("T", atom)]
 
@@ -441,6 +455,33 @@ def programs(tier: str, seed: int = 0):
                         seen.add(t2)
                         yield dict(id=f"{name}|{fid}|s{slot}|{FILLERS.index(f0)}|lead", text=t2, template=name, slot=slot, filler=f0,
                                    ctx=None, lead_of=text)
+    # two adjacent gaps filled at once (layout code often looks at the gap before and the gap after a token together):
+    # a small filler alphabet, base programs with plain atoms only; deterministic, so signatures are stable
+    for name, fid, toks in base_programs(tier):
+        if fid != "atoms":
+            continue
+        canon = glue(render(toks))
+        root = parse_cst(canon)
+        if has_error(root):
+            continue
+        canon_tokens = code_tokens(leaves(root))
+        for slot in range(1, len(toks)):
+            for i1, f1 in enumerate(PAIR_FILLERS):
+                for i2, f2 in enumerate(PAIR_FILLERS):
+                    g1 = adapt_filler(f1, toks[slot]) if slot < len(toks) else f1
+                    g2 = adapt_filler(f2, toks[slot + 1]) if slot + 1 < len(toks) else f2
+                    if g1 is None or g2 is None:
+                        continue
+                    text = glue(render(toks, {slot: g1, slot + 1: g2}))
+                    if text in seen:
+                        continue
+                    r2 = parse_cst(text)
+                    if has_error(r2) or code_tokens(leaves(r2)) != canon_tokens:
+                        continue
+                    seen.add(text)
+                    yield dict(id=f"{name}|atoms|p{slot}|{i1}-{i2}", text=text, template=name, slot=(slot, slot + 1), filler=f1 + "+" + f2,
+                               ctx=_ctx_for(toks, slot, g1), pair=(filler_class(f1), filler_class(f2)),
+                               singles_text=[glue(render(toks, slot, g1)), glue(render(toks, slot + 1, g2))])
     # comment wordings: the text inside a comment is the user's; only indentation and delimiter padding may be normalised (C03)
     for host, tpl in WORDING_HOSTS.items():
         for k, w in enumerate(COMMENT_WORDINGS):
@@ -533,6 +574,10 @@ _EXPR_END = {"identifier", "integer_expression", "float_expression", "path_fragm
 
 
 def signature(prog, symptom: str) -> str:
+    if prog.get("pair"):
+        lca, prev, nxt = prog["ctx"] if prog.get("ctx") else ("?", "?", "?")
+        prev = "expr" if prev in _EXPR_END else prev
+        return f"{symptom}|in={lca}|after={prev}|two adjacent gaps: {prog['pair'][0]} then {prog['pair'][1]}"
     if prog.get("wording") is not None:
         if symptom.endswith(":comment-body-drifts"):
             return f"{symptom}|{filler_class(chr(10) + COMMENT_WORDINGS[prog['wording']] + chr(10))}"
